@@ -66,7 +66,7 @@ package price
 //@   ensures @closed: forall m *commodity.Commodity, n *commodity.Commodity :: {key(rawval(ps, m), n)} (m in result) && has(ps, m, n) ==> (n in result)
 //@   ensures @just: forall n *commodity.Commodity :: {key(result, n)} (n in result) && n != t ==>
 //@        (exists m *commodity.Commodity :: (m in result) && has(ps, m, n) && result[n] == mult(ps[m][n], result[m]))
-//@   ensures @direct: forall n *commodity.Commodity :: {key(rawval(ps, t), n)} has(ps, t, n) && n != t ==> (n in result) && result[n] == mult(ps[t][n], 1.0)
+//@   ensures [C12] @direct: forall n *commodity.Commodity :: {key(rawval(ps, t), n)} has(ps, t, n) && n != t ==> (n in result) && result[n] == mult(ps[t][n], 1.0)
 //
 // Theory of decimal multiplication as far as the proofs need it (trusted; validated by the stand-in
 // 'decimal' against shopspring/decimal): multiplication is odd in its first argument and x*1 = x.
@@ -76,3 +76,8 @@ package price
 //
 // Valuation is odd in the quantity: the two halves of a posting pair stay exact negatives (C01).
 //@ lemma val_odd: forall q real, pr real :: mult(0.0 - q, pr) == 0.0 - mult(q, pr)
+//
+// The algebraic step of mark-to-market (exact arithmetic; truncation abstracted): revaluing a position
+// by (new price - old price) x quantity moves its book value from quantity x old to quantity x new,
+// and booking dq at the current price keeps book value = quantity x price.
+//@ lemma mtm_step: forall q real, pold real, pnew real, dq real :: q * pold + (pnew - pold) * q == q * pnew && q * pnew + dq * pnew == (q + dq) * pnew
